@@ -1,6 +1,14 @@
 import Driver.Util
+import LentilVerif.Model.FieldZ
 open Lean Lentil Drv
 namespace Ops.C06
+
+/-- a field with the explicit flag "data is 0-d" (key `zd`, required) -/
+def zfldOfJson (j : Json) : R (ZFld GI) := do
+  let f ← fldOfJson j
+  let zd ← getBool j "zd"
+  pure { fld := f, zd := zd }
+def zfldToJson (z : ZFld GI) : Json := (fldToJson z.fld).mergeObj (Json.mkObj [("zd", Json.bool z.zd)])
 
 def handle (op : String) (j : Json) : Option (R Json) :=
   match op with
@@ -36,6 +44,25 @@ def handle (op : String) (j : Json) : Option (R Json) :=
       let out := reduce fs.toList
       if out.any Option.isNone then pure (errJ "ValueError")
       else pure (okJ [("fields", Json.arr (out.filterMap id |>.map fldToJson).toArray)])
+  | "field.mergez" => some do
+      let zs ← (← getArr j "fields").mapM zfldOfJson
+      match mergeZ zs.toList with
+      | none => pure (errJ "ValueError")
+      | some p => pure (okJ [("fields", Json.arr #[zfldToJson p])])
+  | "field.reducez" => some do
+      let zs ← (← getArr j "fields").mapM zfldOfJson
+      let out := reduceZ zs.toList
+      if out.any Option.isNone then pure (errJ "ValueError")
+      else pure (okJ [("fields", Json.arr (out.filterMap id |>.map zfldToJson).toArray)])
+  | "field.merge_public" => some do
+      let a ← zfldOfJson (← j.getObjVal? "a"); let b ← zfldOfJson (← j.getObjVal? "b")
+      let enforce ← getBool j "enforce"
+      match mergePublic a b enforce with
+      | none => pure (errJ "ValueError")
+      | some p => pure (okJ [("fields", Json.arr #[zfldToJson p])])
+  | "field.overlap" => some do
+      let fs ← (← getArr j "fields").mapM fldOfJson
+      pure (okJ [("overlap", Json.bool (overlapL fs.toList))])
   | "field.insert" => some do
       let f ← fldOfJson (← j.getObjVal? "field"); let out ← arrOfJson (← j.getObjVal? "out")
       let w ← getInt j "weight"
